@@ -13,3 +13,33 @@ pub broadcast proof fn axiom_string_index_from(s: String, r: std::ops::RangeFrom
     ensures #[trigger] vstd::std_specs::core::IndexSpec::index_req(&s, &r)
 {}
 } // verus!
+// std: `String == str` / `String == &str` compare the character sequences.  vstd leaves eq_spec of these
+// impls unspecified; the axioms state it (trusted).
+verus! {
+#[verifier::external_body]
+pub broadcast proof fn axiom_string_eq_str(a: &String, b: &str)
+    ensures #[trigger] vstd::std_specs::cmp::PartialEqSpec::<str>::eq_spec(a, b) == (a@ == b@),
+{}
+#[verifier::external_body]
+pub broadcast proof fn axiom_string_eq_str_obeys()
+    ensures #[trigger] <String as vstd::std_specs::cmp::PartialEqSpec<str>>::obeys_eq_spec(),
+{}
+#[verifier::external_body]
+pub broadcast proof fn axiom_string_eq_refstr<'a>(a: &String, b: &&'a str)
+    ensures #[trigger] vstd::std_specs::cmp::PartialEqSpec::<&'a str>::eq_spec(a, b) == (a@ == b@),
+{}
+#[verifier::external_body]
+pub broadcast proof fn axiom_string_eq_refstr_obeys<'a>()
+    ensures #[trigger] <String as vstd::std_specs::cmp::PartialEqSpec<&'a str>>::obeys_eq_spec(),
+{}
+pub broadcast group group_string_eq {
+    axiom_string_eq_str, axiom_string_eq_str_obeys, axiom_string_eq_refstr, axiom_string_eq_refstr_obeys,
+}
+} // verus!
+// Rust: a slice never has more than isize::MAX elements (trusted; vstd only states it after an exec len()).
+verus! {
+#[verifier::external_body]
+pub broadcast proof fn axiom_slice_len_fits<T>(s: &[T])
+    ensures #[trigger] s@.len() <= isize::MAX as nat,
+{}
+} // verus!
